@@ -78,7 +78,7 @@ def analyse_fn(rep, rules_, m, fname, kind):
         seen.add(key)
         usable = [k for k in st["facts"]]
         facts = [fk for fk in usable]
-        bg = level_background([st["old"], st["new"]], cap)
+        bg = level_background([st["old"], st["new"]], cap) + list(st.get("nonneg", []))
         plain = [fm for fm in facts]
         # facts are stored as forms; wrapped guards are kept apart
         good_facts, wrapped = [], []
